@@ -51,7 +51,7 @@ def _expected_failure(doc, groups, pos, rot=0):
     """first failing file line of a doctest made of the given groups, or None"""
     for g in groups:
         if g == 2:
-            return pos[g]['src'][collectlib.src_fail_index(doc['nsrc'], rot)], 'ZeroDivisionError'
+            return pos[g]['src'][collectlib.src_fail_index(doc['nsrc'], rot)], collectlib.src_fail_type(doc['nsrc'], rot)
         if doc['nwant'] == 2:
             return pos[g]['want'][0], 'GotWantException'
     return None, None
